@@ -1,27 +1,26 @@
 (* C06 — exported theorems only: each is closed by [exact] and followed by Print Assumptions. *)
 From Coq Require Import List ZArith Bool.
-From Verif Require Import C06.Model C06.Spec C06.Proofs.
+From Verif Require Import C06.Model C06.OldModel C06.Spec C06.Proofs.
 Import ListNotations.
 Open Scope Z_scope.
 
 (* ---- CPU picking (takeCPUs) ---- *)
-(* a successful pick is duplicate free, taken from the free CPUs of the topology, never
-   smaller than requested, and exactly as large as requested unless the policy is FullPCPUs
-   and the request is not a whole number of cores *)
+(* a successful pick is duplicate free, taken from the free CPUs of the topology, and has
+   exactly the requested size — for every bind / exclusive policy and NUMA strategy *)
 Theorem c06_take_exact : forall c avail allocated n bind s,
   NoDup (map cid (c_topo c)) ->
   take_cpus c avail allocated n bind = Some s ->
-  NoDup s /\ incl s avail /\ incl s (map cid (c_topo c))
-  /\ Z.max 0 n <= lenZ s
-  /\ (aligned (c_topo c) n bind -> lenZ s = Z.max 0 n).
+  NoDup s /\ incl s avail /\ incl s (map cid (c_topo c)) /\ lenZ s = Z.max 0 n.
 Proof. exact take_cpus_spec. Qed.
 Print Assumptions c06_take_exact.
 
-(* without the alignment hypothesis exactness is false of the faithful model (and of the code) *)
-Theorem c06_take_exact_refuted : exists c avail allocated n bind s,
-  NoDup (map cid (c_topo c)) /\ take_cpus c avail allocated n bind = Some s /\ lenZ s <> n.
-Proof. exact take_exact_refuted_lemma. Qed.
-Print Assumptions c06_take_exact_refuted.
+(* regression for fix 43d7136: the model of the code before the fix returns 8 CPUs for a
+   FullPCPUs request of 7 (exactness was false of it), the current model returns 7 *)
+Example c06_take_exact_old_refuted :
+  take_cpus_old (mkCfg overshoot_topo 1 0 true) overshoot_avail [] 7 1 = Some [4; 5; 6; 7; 12; 13; 20; 21]
+  /\ lenZ [4; 5; 6; 7; 12; 13; 20; 21] <> 7
+  /\ take_cpus (mkCfg overshoot_topo 1 0 true) overshoot_avail [] 7 1 = Some [4; 5; 6; 7; 12; 13; 14].
+Proof. exact take_exact_old_refuted_lemma. Qed.
 
 (* the search never fails while enough CPUs of the topology are free (all policies) *)
 Theorem c06_take_complete : forall c avail allocated n bind,
@@ -31,13 +30,11 @@ Theorem c06_take_complete : forall c avail allocated n bind,
 Proof. exact take_cpus_complete. Qed.
 Print Assumptions c06_take_complete.
 
-(* takePreferredCPUs (reservation restore path): safe always, exact unless FullPCPUs *)
+(* takePreferredCPUs (reservation restore path): safe and exact *)
 Theorem c06_take_preferred : forall c avail preferred allocated n bind s,
   NoDup (map cid (c_topo c)) ->
   take_preferred c avail preferred allocated n bind = Some s ->
-  NoDup s /\ incl s avail /\ incl s (map cid (c_topo c))
-  /\ Z.max 0 n <= lenZ s
-  /\ ((bind =? 1) = false -> lenZ s = Z.max 0 n).
+  NoDup s /\ incl s avail /\ incl s (map cid (c_topo c)) /\ lenZ s = Z.max 0 n.
 Proof. exact take_preferred_spec. Qed.
 Print Assumptions c06_take_preferred.
 
@@ -59,8 +56,7 @@ Theorem c06_allocate_cpuset : forall o st rq numa s,
   NoDup (map cid (o_topo o)) ->
   allocate_cpuset o st rq numa = Some s ->
   NoDup s /\ incl s (avail_of o st)
-  /\ Z.max 0 (r_n rq) <= lenZ s
-  /\ (numa <> [] \/ aligned (o_topo o) (r_n rq) (r_bind rq) -> lenZ s = Z.max 0 (r_n rq))
+  /\ lenZ s = Z.max 0 (r_n rq)
   /\ (r_required rq = true -> satisfied_policy (r_bind rq) (o_topo o) s = true).
 Proof. exact allocate_cpuset_spec. Qed.
 Print Assumptions c06_allocate_cpuset.
@@ -140,11 +136,9 @@ Proof. exact take_preferred_complete. Qed.
 Print Assumptions c06_take_preferred_complete.
 
 (* stream "take": the decision procedure holds of the model's own observable, i.e.
-   prop_case inp (run_case inp) = 0, for every well-formed input with a policy other than
-   FullPCPUs (for FullPCPUs see c06_take_exact / c06_take_exact_refuted) *)
+   prop_case inp (run_case inp) = 0, for every well-formed input (all policies) *)
 Theorem c06_take_model_passes : forall c avail preferred allocated n bind,
   NoDup (map cid (c_topo c)) -> NoDup avail -> incl avail (map cid (c_topo c)) ->
-  (bind =? 1) = false ->
   match take_preferred c avail preferred allocated n bind with
   | Some s => take_code (c_topo c) avail n (Some (sortZ s))
                         (determine_full (c_topo c) s) (determine_spread (c_topo c) s) = 0
@@ -160,7 +154,7 @@ Example c06_ex_hist :
   Forall op_sched [OAlloc (mkR 1 4 true 1 false 0 (Some [0; 1]) 4000 8); ORelease 1;
                    OAlloc (mkR 2 2 true 2 true 1 None 2000 0)].
 Proof. exact ex_hist_sched. Qed.
-Example c06_ex_aligned : aligned overshoot_topo 8 1 /\ uniform_topo overshoot_topo = true /\ wf_topo overshoot_topo = true.
-Proof. exact ex_aligned. Qed.
+Example c06_ex_uniform : uniform_topo overshoot_topo = true /\ wf_topo overshoot_topo = true.
+Proof. exact ex_uniform. Qed.
 Example c06_ex_d1 : distribute1 0 1 8 [(1, 10); (2, 2)] = ([(2, 2); (1, 6)], 0).
 Proof. exact ex_d1. Qed.
